@@ -325,3 +325,44 @@ def rule_shared_state(ctx, cfg='prod-all', scope_prefixes=('',)):
              fact={'const_operands_scanned': n_ops, 'refs': refs[:10]}, expected='none')
     unsafe_fns = [f['path'] for f in prog.items['fns'] if f['unsafe']]
     yield Ob('RF-S', 'crate#unsafe-fns', not unsafe_fns, 'no unsafe fn in the crate', '', fact=unsafe_fns, expected='none')
+
+
+# ------------------------------------------------------------------ argument roles
+PASS_THROUGH_ROLES = ('pk', 'sk', 'header', 'ph', 'api_id', 'key_info', 'key_dst', 'key_material', 'signer_pk', 'commitment_pk', 'a_bases')
+
+
+def rule_argument_roles(ctx, cfg='prod-all', scope=('bbsplus::', 'utils::util::bbsplus_utils', 'utils::message::bbsplus_message'), roles=PASS_THROUGH_ROLES, min_sites=40):
+    """context data is handed down unchanged: when a function passes an argument for a callee parameter named pk / sk / header / ph /
+    api_id (...), that argument is computed from the caller's parameter of the same name and from no other parameter (or from constants
+    only when the caller has no such parameter).  A header passed where the presentation header belongs, or a key of the wrong party,
+    breaks this."""
+    prog, eng = ctx.prog(cfg), ctx.eng(cfg)
+    n = 0
+    for p, b in sorted(prog.bodies.items()):
+        if b.from_expansion or not p.startswith(scope) or b.kind == 'Closure':
+            continue
+        fd = eng.fndep(p)
+        for bi, t in b.calls():
+            tgt = local_target(eng, t)
+            if tgt is None or tgt not in prog.bodies:
+                continue
+            cb = prog.bodies[tgt]
+            for k, a in enumerate(t['args']):
+                if k + 1 > cb.arg_count:
+                    continue
+                role = cb.local_name(k + 1)
+                if role not in roles:
+                    continue
+                at = fd.read_op(a)
+                srcs = sorted({b.local_name(strip(x)[1]) for x in at if strip(x)[0] == 'p'})
+                aliases = {'pk': ('pk', 'signer_pk'), 'signer_pk': ('signer_pk', 'pk')}.get(role, (role,))
+                own = [x for x in aliases if b.param_index(x) is not None]
+                if not own:
+                    continue      # the caller computes this value itself (e.g. sk_to_pk(sk) in key generation): nothing to pass through
+                ok = srcs == [own[0]]
+                exp = [own[0]]
+                n += 1
+                yield Ob('RF-B', '%s#arg:%s(%s)@%d' % (p, tgt.split('::')[-1], role, sum(1 for bj, tj in b.calls() if bj < bi and local_target(eng, tj) == tgt)), ok,
+                         'argument for `%s` of %s comes from the caller\'s own `%s`' % (role, tgt.split('::')[-1], role), '%s L%s' % (b.file(), t['line']),
+                         fact={'sources': srcs}, expected=exp)
+    yield Ob('RF-B', 'crate#argument-role-census', n >= min_sites, 'pass-through arguments checked', '', fact=n, expected='>= %d' % min_sites, nontrivial=False)
